@@ -909,6 +909,13 @@ func (c *FnCtx) assumeTypeInvsAfterCall(callee *ssa.Function, args []string, arg
 
 func (c *FnCtx) assumeRequires() {
 	c.assumeTypeInvsAtEntry()
+	if c.opts != nil {
+		for i, k := range c.opts.paramConst {
+			if i < len(c.fn.Params) {
+				c.assume(eq(c.vals[c.fn.Params[i]], c.constTerm(k)))
+			}
+		}
+	}
 	if c.con == nil {
 		// a function swept without annotations: its interface-typed parameters range over the input
 		// domain of C08, values built from the nine JSON representation types all the way down
@@ -1009,11 +1016,20 @@ func (c *FnCtx) resolverAtEntry() func(string) (sv, bool) {
 // checkCallAsserts: "call F requires E" clauses of the enclosing function's contract - an obligation at
 // every call of F, over the call's arguments (arg0, arg1, ...) and the caller's variables.
 func (c *FnCtx) checkCallAsserts(callee *ssa.Function, call *ssa.CallCommon, args []string, argTypes []types.Type, pos token.Pos) {
-	if c.con == nil || callee == nil {
+	if c.con == nil {
+		return
+	}
+	cname := ""
+	if callee != nil {
+		cname = callee.Name()
+	} else if p, ok := call.Value.(*ssa.Parameter); ok && !call.IsInvoke() {
+		cname = p.Name() // a call of a function-typed parameter, named by the parameter
+	}
+	if cname == "" {
 		return
 	}
 	for _, cl := range c.con.Clauses {
-		if cl.Kind != "callassert" || cl.Callee != callee.Name() {
+		if cl.Kind != "callassert" || cl.Callee != cname {
 			continue
 		}
 		env := c.conEnv()
@@ -1039,7 +1055,7 @@ func (c *FnCtx) checkCallAsserts(callee *ssa.Function, call *ssa.CallCommon, arg
 			c.dropInvariant(cl, err)
 			continue
 		}
-		c.oblige("call-assert:"+callee.Name(), cl.Props, c.guard(), t, pos, cl, "at the call of "+callee.Name()+": "+cl.Text)
+		c.oblige("call-assert:"+cname, cl.Props, c.guard(), t, pos, cl, "at the call of "+cname+": "+cl.Text)
 	}
 }
 
